@@ -7,7 +7,9 @@ import Oracle.Util
         ("-" = no segment request at all; a segment without blocks is "<start>-<stop>="; a block without
         records is "<low>:<high>:").  Block ids and record ids are assigned in order of appearance.
         → "eof [id@ts,id@ts|…|…]" = the released batches (or "stuck […]" when EOF is not reached within
-        fuelBound Fetch calls); inside a batch runs of equal timestamps are ordered by id.  1 <= maxBlocks <= 64.
+        fuelBound Fetch calls — since the repair of fetchRRCs (`lastBlocks`) the model never answers "stuck" for
+        uint64 timestamps, Props.C05.fetch_always_reaches_eof; the Go side still prints it when the real searcher
+        does not reach EOF); inside a batch runs of equal timestamps are ordered by id.  1 <= maxBlocks <= 64.
    c5nb <rf|rl> <maxBlocks> <low>:<high>;…        → "<numBlocks> <endTime>" of getNextBlocks(sortBlocks(blocks))
    c5vr <rf|rl> <last> <ts>,<ts>,…                → number of records getValidRRCs keeps from sortRRCs(records)
    scroll <from> <n1>,<n2>,…                    → records 0.. cut into batches of these sizes through scrollProcessor
